@@ -15,6 +15,9 @@ CHECKS = {
  "C04": dict(engine="vsim+adversary", technique="runtime monitoring: adversarial-member workload (spoofed author, pre-set/stale rumor ids, odd fields, verbatim and re-wrapped replays, re-tagged wrappers) with a shadow map of stored messages and per-message binding checks re-evaluated after every attack at two honest receivers",
    text="Exploration: after every one of N attacks by a malicious member every message stored at two honest receivers, in every group, must have an id that is the NIP-01 hash of its stored fields and of its stored event, an author equal to the identity whose MLS ciphertext it was, and no earlier stored message may have changed author or content or vanished; no body may be stored twice.",
    note="The MLS-authenticated sender is known by construction (the harness knows whose stored state produced each ciphertext).", ref="5/C04"),
+ "C05": dict(engine="vsim+adversary", technique="runtime monitoring: authorisation-rule monitor over before/after views (members, admins, group data, leaf->identity map) of every receiver for messages built with the OpenMLS commit builder by each sender role, and for honest admin API operations with foreign proposals planted in the queue",
+   text="Exploration: on N (sender role x content x receiver) trials and (admin operation x planted proposal) trials, a 20-line reference rule is evaluated at every receiver: non-admin author => only its own key material may change; a proposal alone => nothing; admin author => the roster / group-data delta equals the named proposals (or the API arguments); identities at existing leaves never change; a refusal leaves the complete fingerprint unchanged.",
+   note="Commits with a changed identity in the update path are refused by OpenMLS itself before mdk's identity check is reached with the commit-builder API available here.", ref="5/C05"),
  "C06": dict(engine="vsim+adversary", technique="runtime monitoring: structure-aware hostile-input generation at four depths against a live victim client, panic/abnormal-exit observation in sharded child processes, before/after fingerprint oracle on every refusal (hostile inputs and ordinary histories)",
    text="Exploration: N hostile inputs (wrapper fields; correctly NIP-44-wrapped mutated MLS bytes; authentic MLS messages with hostile plaintext and unauthorised proposals/commits; welcome rumors, key-package events, every String parameter of the uniffi facade) are delivered to a victim in states idle / pending commit / pending proposals / inactive with a second group present. No call may panic (catch_unwind in the child, abnormal child exit seen by the parent) and every refusal must leave the fingerprint of every group, the group list and the pending welcomes unchanged. The same refusal oracle runs over ordinary simulator histories.",
    note="Third-party dependencies are built without debug assertions (OpenMLS debug_asserts on every AEAD failure), the mdk crates with them; SIGKILL/watchdog of a shard is inconclusive; the dedup/failure record is not observable state.", ref="5/C06"),
@@ -73,7 +76,7 @@ def main():
         },
         "engines": [
             {"name": "vstore", "path": "/verif/harness/src/vstore", "serves_properties": ["C09", "C10", "C18", "C19"], "kind_free_text": "storage-level operation language, generator, interpreter over real backends, full read-out, executable reference model"},
-            {"name": "vsim", "path": "/verif/harness/src/sim", "serves_properties": ["C01", "C02", "C04", "C06", "C07", "C08", "C16", "C18", "C20"], "kind_free_text": "world simulator: N real MDK clients (memory / SQLite), relay log, harness-chosen delivery schedules, pinned wrapper timestamps, oracle replica, per-step monitors"},
+            {"name": "vsim", "path": "/verif/harness/src/sim", "serves_properties": ["C01", "C02", "C04", "C05", "C06", "C07", "C08", "C16", "C18", "C20"], "kind_free_text": "world simulator: N real MDK clients (memory / SQLite), relay log, harness-chosen delivery schedules, pinned wrapper timestamps, oracle replica, per-step monitors"},
         ],
         "checks": checks,
         "notes": "All checks: exit 0 = held on what was observed or inconclusive (reason in evidence.coverage.inconclusive); exit 1 + VIOLATION line = violated; exit 2 = harness does not build. Known findings: /verif/known-findings.txt.",
